@@ -60,9 +60,15 @@ CLAIMS.update({
               "DESIGN.md section 4, C18"),
 })
 
+CLAIMS["C17"] = _c("Every TLC-generated behaviour is replayed through 7 entry-point variants (Allocator on &BumpScope, &dyn "
+                   "BumpAllocatorCore, reference impls, try_allocate_layout, the panicking twins, typed sized/slice fast paths, the Bump "
+                   "type itself) from identical initial states with a deterministic base allocator; TLC compares result, address, "
+                   "length, allocated bytes, position and content checks pairwise on every step (independent of the model).",
+                   "DESIGN.md section 4, C17")
+
 ENGINES = [
     {"name": "replay", "path": "/verif/harness/replay",
-     "serves_properties": ["C01", "C02", "C03", "C05", "C07", "C10", "C12", "C13", "C14", "C15", "C16", "C18"],
+     "serves_properties": ["C01", "C02", "C03", "C05", "C07", "C10", "C12", "C13", "C14", "C15", "C16", "C17", "C18"],
      "kind_free_text": "Rust interpreter of TLC-generated Arena.tla behaviours over the settings x base-allocator matrix; records the "
                        "projected arena state after every step as NDJSON evaluated by TLC (spec/ArenaObs.tla)"},
 ]
